@@ -265,11 +265,13 @@ def result(R, res, operand=None):
 
 def step(R, t, dyn=None):
     op = t[0]
-    r = int(t[1]) if len(t) > 1 and op != "new" else None
+    r = int(t[1]) if len(t) > 1 and op not in ("new", "newfrom") else None
     if op == "new":
         if dyn is not None:
             return result(R, dyn() if t[2] == "noarg" else dyn([num(v) for v in qlist(t[3])]))
         return result(R, construct(int(t[1]), t[2], qlist(t[3])))
+    if op == "newfrom":
+        return result(R, cls(int(t[1]))(R[int(t[2])]))
     x = R[r]
     if op == "view":
         return result(R, np.array(x, copy=False))
